@@ -91,6 +91,38 @@ class R:
             return 'throw'
         return self.e(n)
 
+    def top(self, st):
+        """a top-level statement of a function body as a constructor of RelocSyntax.cstmt (nested statements: canonical strings)"""
+        n = self.strip(st)
+        k = n.get('kind')
+        L = lambda xs: '[' + '; '.join(Q(x) for x in xs) + ']'
+        if k not in ('CompoundStmt', 'DeclStmt', 'IfStmt', 'CXXTryStmt', 'ForStmt', 'WhileStmt', 'CXXForRangeStmt', 'DoStmt') \
+                and self.cx.is_assert_stmt(st):
+            return None
+        if k == 'DeclStmt':
+            v = [x for x in n['inner'] if x.get('kind') == 'VarDecl']
+            if len(v) == 1:
+                i = [y for y in v[0].get('inner', []) if isinstance(y, dict) and y.get('kind')]
+                return 'SDecl %s %s' % (Q(v[0]['name']), Q(self.e(i[0]) if i else ''))
+            return 'SOther %s' % Q(self.s(st))
+        if k == 'IfStmt':
+            parts = [x for x in n['inner'] if isinstance(x, dict) and x.get('kind')]
+            if len(parts) == 2:
+                return 'SIfThen %s %s' % (Q(self.e(parts[0])), L(self.block(self.strip(parts[1]))))
+            return 'SOther %s' % Q(self.s(st))
+        if k == 'CXXTryStmt':
+            hs = [x for x in n['inner'][1:] if x.get('kind') == 'CXXCatchStmt']
+            if len(hs) == 1:
+                hdecl = [x for x in hs[0].get('inner', []) if isinstance(x, dict) and x.get('kind') == 'VarDecl']
+                hb = [y for y in hs[0]['inner'] if y.get('kind') == 'CompoundStmt'][0]
+                return 'STry %s %s %s' % (L(self.block(n['inner'][0])), L(self.block(hb)), 'true' if not hdecl else 'false')
+            return 'SOther %s' % Q(self.s(st))
+        if k == 'ForStmt':
+            return 'SFor %s' % Q(self.s(st))
+        if k in ('CXXMemberCallExpr', 'CallExpr', 'CXXOperatorCallExpr', 'BinaryOperator', 'UnaryOperator'):
+            return 'SExpr %s' % Q(self.e(n))
+        return 'SOther %s' % Q(self.s(st) or '')
+
     def block(self, comp):
         inner = comp.get('inner', []) if comp.get('kind') == 'CompoundStmt' else [comp]
         return [x for x in (self.s(y) for y in inner) if x is not None]
@@ -121,36 +153,24 @@ def facts(tu, repo, root='/verif'):
         raise E('astfacts: expected one pvRelocateItems() and one pvRelocateItems(Buckets*), found %d / %d' % (len(wrapper), len(worker)))
     body = lambda m: [y for y in m['inner'] if y.get('kind') == 'CompoundStmt'][0]
     F = {}
-    wb = [y for y in body(wrapper[0]).get('inner', []) if r.s(y) is not None]
-    tries = [y for y in wb if r.strip(y).get('kind') == 'CXXTryStmt']
-    if len(tries) != 1:
-        raise E('astfacts: pvRelocateItems() is expected to contain exactly one top-level try statement')
-    t = r.strip(tries[0])
-    hs = [x for x in t['inner'][1:] if x.get('kind') == 'CXXCatchStmt']
-    if len(hs) != 1:
-        raise E('astfacts: exactly one handler expected')
-    hdecl = [x for x in hs[0].get('inner', []) if isinstance(x, dict) and x.get('kind') == 'VarDecl']
-    F['wrapper_catch_all'] = 'true' if not hdecl else 'false'        # catch (...) has no exception declaration
-    F['wrapper_try'] = r.block(t['inner'][0])
-    F['wrapper_handler'] = r.block([y for y in hs[0]['inner'] if y.get('kind') == 'CompoundStmt'][0])
-    F['wrapper_outside_try'] = [x for x in (r.s(y) for y in wb if r.strip(y).get('kind') != 'CXXTryStmt') if x is not None]
-    F['worker_body'] = r.block(body(worker[0]))
-    F['worker_noexcept'] = [worker[0].get('type', {}).get('qualType', '')]
-    F['wrapper_noexcept'] = [wrapper[0].get('type', {}).get('qualType', '')]
+    F['wrapper_stmts'] = [x for x in (r.top(y) for y in body(wrapper[0]).get('inner', [])) if x is not None]
+    F['worker_stmts'] = [x for x in (r.top(y) for y in body(worker[0]).get('inner', [])) if x is not None]
+    F['worker_noexcept'] = [Q(worker[0].get('type', {}).get('qualType', ''))]
+    F['wrapper_noexcept'] = [Q(wrapper[0].get('type', {}).get('qualType', ''))]
     return F
+
+
+def Q(s):
+    return '"' + s.replace('"', "'") + '"'
 
 
 def facts_text(tu, repo, root='/verif'):
     F = facts(tu, repo, root)
-    q = lambda s: '"' + s.replace('"', "'") + '"'
     out = ['(* GENERATED by props/C11/astfacts.py from the clang AST of the current headers (' + os.path.basename(tu) + ') -- do not edit *)',
-           'From Coq Require Import List String.', 'Import ListNotations.', 'Local Open Scope string_scope.', '']
+           'From Coq Require Import List String.', 'From C11 Require Import RelocSyntax.', 'Import ListNotations.', 'Local Open Scope string_scope.', '']
     for k in sorted(F):
-        v = F[k]
-        if isinstance(v, list):
-            out.append('Definition %s : list string :=\n  [%s].\n' % (k, ';\n   '.join(q(x) for x in v)))
-        else:
-            out.append('Definition %s : bool := %s.\n' % (k, v))
+        ty = 'cstmt' if k.endswith('_stmts') else 'string'
+        out.append('Definition %s : list %s :=\n  [%s].\n' % (k, ty, ';\n   '.join(F[k])))
     return '\n'.join(out)
 
 
